@@ -267,7 +267,7 @@ fn main() {
     let cli = Cli::parse();
     let mut rep = Report::new("C02", &cli);
     rep.note("rule", json!("Layer A (engine): SortVoting::winners on weight matrices - exhaustively all matrices with <= 3 detections x <= 3 tracks over a 5-value grid straddling the threshold (absent pairs included), and random matrices up to 8 x 8 with planted greedy traps, stream order shuffled; the returned assignment must cover every query of the stream, be one-to-one, use only present pairs, and reach the optimum of an exact subset-DP in the engine's own integer scale (ties are therefore irrelevant). Layer B (tracker): before every Sort / BatchSort predict call the live tracks are snapshotted (last estimated box, last update epoch, raw Kalman state through the guarded accessor); gates and weights are recomputed in f64 (IoU x max(conf, min_conf) >= threshold; chi-square(5) gate on the squared Mahalanobis distance + bounding-circle reach; idle limit; scene) and the observed continuations must be clearly admissible pairs forming an assignment whose objective is within tolerance of the exact optimum; calls with a pair inside a 1e-4 gate band are counted as undecidable. BatchSort histories are run a second time pipelined (one-scene batches submitted back to back, results read by consumer threads); every pipelined outcome is judged against the sequential run's pre-call snapshot. Non-trivial: greedy (row-wise best-first) is strictly worse than the optimum; distinct by matrix / call hash."));
-    rep.note("assumptions", json!(["'>' versus '>=' at exact equality of a computed weight with the threshold is not judged (both outcomes have the same objective)", "calls with more than 16 candidate tracks of the scene are skipped (counted)"]));
+    rep.note("assumptions", json!(["'>' versus '>=' at exact equality of a computed weight with the threshold is not judged (both outcomes have the same objective)", "the exact optimum is computed per connected component of the gated pairs; calls in which a component has more than 16 tracks are skipped (counted)"]));
     if !cli.small {
         layer_a(&cli, &mut rep);
     }
